@@ -5,6 +5,6 @@ CONSTANTS
   LastChanceAny = {"m", "s", "p"}
   WalkSorted = TRUE
   AssumeUserRange = TRUE
-  SampleMod = 1
+  SampleMod = 2
 INVARIANTS Export
 CHECK_DEADLOCK FALSE
